@@ -63,6 +63,7 @@ class EngineState:
         self.created_db = False
         self.created_schema = False
         self.bootstrap: set[str] = set()
+        self.bootstrap_flags: dict = {}
         self.utc = False
         self.attach_file = None
         self.other: list[str] = []
@@ -170,7 +171,9 @@ class ConnectHooks(Hooks):
             if holes and _is_db_hole(holes[0]):
                 if not st.db:
                     self.fail(I, "duckdb.BinderException", f"bootstrap CREATE {what} in a missing catalog", site)
-                st.bootstrap.add(f"{what}:{'.'.join(t.text.lower() for t in name[1:])}")
+                key = f"{what}:{'.'.join(t.text.lower() for t in name[1:])}"
+                st.bootstrap.add(key)
+                st.bootstrap_flags[key] = (c["if_not_exists"], c["or_replace"], site)
                 return
             st.other.append(f"create {what} {full}")
             return
